@@ -1060,6 +1060,26 @@ pub fn emit(prop: &str, g: &mut Gen, out: &mut Vec<String>) {
         }
         "C13" => {
             let (ct, oc) = g.cal();
+            if g.rng.chance(1, 24) {
+                // the model of std's integer parsing, which the generated parser is built on, against std
+                let body: String = match g.rng.below(6) {
+                    0 => (*g.rng.pick(&["", "+", "-", "+-1", "-+1", "--1", "++1", "0", "-0", "+0", "00", "-00000000000000000000",
+                        "2147483647", "2147483648", "-2147483648", "-2147483649", "4294967295", "4294967296", "+4294967295",
+                        "-1", " 1", "1 ", "1_000", "0x10", "1e3", "١٢", "１２", "1\u{660}", "٣", "+٣", "1.0", "١"])).to_string(),
+                    1 => format!("{}{}", g.rng.pick(&["", "+", "-"]), g.rng.range(0, 5_000_000_000)),
+                    2 => format!("{}{}{}", g.rng.pick(&["", "+", "-"]), "0".repeat(g.rng.below(30) as usize), g.rng.range(0, 5_000_000_000)),
+                    3 => format!("{}{}", g.rng.pick(&["", "+", "-"]), g.rng.range(2147483640, 2147483656)),
+                    4 => format!("{}{}", g.rng.pick(&["", "+", "-"]), g.rng.range(4294967290, 4294967300)),
+                    _ => {
+                        let mut t = format!("{}{}", g.rng.pick(&["", "+", "-"]), g.rng.range(0, 100000));
+                        let at = g.rng.below(t.len() as u64 + 1) as usize;
+                        t.insert(at, *g.rng.pick(&['-', '+', ' ', 'a', '٣', '_', '.', '\u{0}']));
+                        t
+                    }
+                };
+                push(out, format!("prim_parse {} {}", g.rng.pick(&["i32", "u32"]), hex_enc(&body)));
+                return;
+            }
             if g.rng.chance(1, 3) {
                 let j = g.jdn(&oc);
                 push(out, format!("fmt {ct} {j}"));
